@@ -19,6 +19,7 @@ CONFIGS = [
     ("ext4_nocsum", ["-t", "ext4", "-b", "1024", "-O", "^metadata_csum,uninit_bg"]),
     ("ext4_norsz_g256", ["-t", "ext4", "-b", "1024", "-O", "^resize_inode", "-g", "256", "-N", "768"]),     # growing moves inode tables
     ("ext4_fewinodes", ["-t", "ext4", "-b", "1024", "-g", "2048", "-N", "400"]),                             # shrinking renumbers inodes
+    ("ext4_inline_fewinodes", ["-t", "ext4", "-b", "1024", "-O", "inline_data", "-g", "2048", "-N", "400"]),  # ... referenced from inline directories
 ]
 KINDS = ["grow", "shrink", "min", "grow", "shrink", "same"]
 START = ["12M", "20M", "33M", "64M"]
@@ -41,7 +42,9 @@ def same_fs(d0, d1):
 
 def tree_of(path):
     try:
-        return tree(Fs(path))
+        fs = Fs(path)
+        fs.inline = True        # inline-data files and directories are read too (names and inode numbers matter after a renumbering)
+        return tree(fs)
     except FormatError as ex:
         return {"<error>": str(ex)}
 
@@ -109,23 +112,33 @@ def one_case(src, mexe, idx, seed, tier):
     start = START[(idx // len(CONFIGS)) % len(START)]
     fill = r.choice([0.15, 0.35, 0.55])
     kw = {}
-    if name == "ext4_fewinodes" or (idx // len(CONFIGS)) % 5 == 4:
+    if name in ("ext4_fewinodes", "ext4_inline_fewinodes") or (idx // len(CONFIGS)) % 5 == 4:
         fill = 0.1
         kw = {"filler_fraction": 0.8, "nfiles": 60}
-    base = mkimg.cached_fs(src, WORK, name + ("_f" if kw else ""), opts, start, 1 + int(fill * 100), fill=fill, **kw)
+    eahigh = False
+    if not kw and name in ("ext3", "ext4_nocsum", "ext4_1k", "ext2_nosparse") and (idx // len(CONFIGS)) % 2 == 1:
+        # attribute blocks high on the device, owned by inodes of the first groups
+        fill = 0.1
+        kw = {"ea_high_fraction": 0.7, "nfiles": 40}
+        eahigh = True
+    base = mkimg.cached_fs(src, WORK, name + ("_e" if eahigh else "_f" if kw else ""), opts, start, 1 + int(fill * 100), fill=fill, **kw)
     img = os.path.join(WORK, "r_%d.img" % idx)
     shutil.copy(base, img)
     fs0 = Fs(base)
     kind = KINDS[(idx // len(CONFIGS)) % len(KINDS)] if idx < 4 * len(CONFIGS) else r.choice(KINDS)
+    if eahigh:
+        kind = r.choice(["shrink", "min", "shrink"])
     env = e2v.tool_env(src, RESIZE2FS_FORCE_LAZY_ITABLE_INIT="1") if r.random() < 0.5 else e2v.tool_env(src)
     if kind == "min":
         args = ["-M"]
         req = None
     else:
         req = pick_target(r, fs0, kind)
-        if kw and kind == "shrink" and fs0.groups_count > 2 and r.random() < 0.7:
+        if eahigh and kind == "shrink":
+            req = fs0.blocks_count // 2 + r.randint(0, fs0.blocks_count // 8)
+        elif kw and kind == "shrink" and fs0.groups_count > 2 and (r.random() < 0.7 or "inline" in name):
             # drop only the last group(s): their block-less inodes are renumbered while no block has to move
-            req = fs0.first_data_block + (fs0.groups_count - r.choice([1, 1, 2])) * fs0.blocks_per_group
+            req = fs0.first_data_block + (fs0.groups_count - (2 if "inline" in name else r.choice([1, 1, 2]))) * fs0.blocks_per_group
         args = [str(req)]
     extra = r.choice([[], [], ["-f"], ["-p"]])
     recipe = {"config": name, "mke2fs": opts, "start": start, "fill": fill, "kind": kind, "args": extra + args, "case_index": idx}
